@@ -110,3 +110,64 @@ Example C06_xpath_injective_inhabited :
      get_xpath t (ex_leaf 4 "L") = Ok (lit "/@root[0]P/@items[0]L") /\
      get_xpath t (ex_leaf 3 "L") = Ok (lit "/@root[0]P/@child[0]P/@child[0]L")).
 Proof. exact xpath_inj_inhabited. Qed.
+
+(* non-vacuity witnesses *)
+(* the instance: ex_ct = L, M (subclass of L), P (a mandatory child, a tuple child);
+   ex_root = P1(child = P2(child = L3, items = ()), items = (L4, M5, L6)); w6_t = the table Tree(ex_root) builds *)
+From Oak Require Import Proofs.C06Witness.
+(* C06_build *)
+Theorem C06_ex_build : wf_node ex_ct ex_root = true /\ nodup_tree ex_root /\ size ex_root = 6
+  /\ tree_build ex_ct ex_root = Some w6_t /\ length (t_xpath w6_t) = 6 /\ length (t_pinfo w6_t) = 5.
+Proof. exact w6_build. Qed.
+(* C06_in_tree, C06_is_root: is_tree holds of the built table; both answers occur *)
+Theorem C06_ex_in_tree : is_tree ex_root w6_t
+  /\ is_in_tree w6_t (ex_leaf 3 "L") = true /\ is_in_tree w6_t (ex_leaf 9 "L") = false
+  /\ is_root w6_t ex_root = true /\ is_root w6_t (ex_leaf 3 "L") = false.
+Proof. exact w6_in_tree. Qed.
+(* C06_parent_info, C06_parent, C06_ancestors_chain, C06_is_ancestor, C06_first_ancestor_of_type, C06_depth_abs,
+   C06_xpath_spells: a two-step path and a path through a tuple position, with the answers *)
+Theorem C06_ex_upward : nodup_tree ex_root /\ is_tree ex_root w6_t
+  /\ path ex_root [w6_ti2; w6_ti3] (ex_leaf 3 "L") /\ path ex_root [w6_ti5] (ex_leaf 5 "M")
+  /\ get_parent_info w6_t (ex_leaf 3 "L") = Ok (Some w6_ti3)
+  /\ get_parent w6_t (ex_leaf 5 "M") = Ok (Some ex_root)
+  /\ get_ancestors w6_t (ex_leaf 3 "L") = Some (Ok [w6_p2; ex_root])
+  /\ is_ancestor w6_t (ex_leaf 3 "L") w6_p2 = Some (Ok true)
+  /\ is_ancestor w6_t (ex_leaf 3 "L") (ex_leaf 4 "L") = Some (Ok false)
+  /\ get_first_ancestor_of_type ex_ct w6_t (ex_leaf 3 "L") [lit "P"] true = Some (Ok (Some w6_p2))
+  /\ get_first_ancestor_of_type ex_ct w6_t (ex_leaf 3 "L") [lit "L"] false = Some (Ok None)
+  /\ depth w6_t (ex_leaf 3 "L") None true = Some (Ok 2)
+  /\ get_xpath w6_t (ex_leaf 5 "M") = Ok (lit "/@root[0]P/@items[1]M").
+Proof. exact w6_upward. Qed.
+(* C06_depth_rel: r = P2 inside the tree, a non-empty path below it *)
+Theorem C06_ex_depth_rel : nodup_tree ex_root /\ is_tree ex_root w6_t
+  /\ path ex_root [w6_ti2] w6_p2 /\ path w6_p2 [w6_ti3] (ex_leaf 3 "L") /\ [w6_ti3] <> []
+  /\ depth w6_t (ex_leaf 3 "L") (Some w6_p2) true = Some (Ok 1)
+  /\ depth w6_t (ex_leaf 3 "L") (Some w6_p2) false = Some (Ok 1).
+Proof. exact w6_depth_rel. Qed.
+(* C06_rel_nonancestor_valueerror: r = L4 is a node of the tree and not an ancestor of L3 *)
+Theorem C06_ex_nonancestor : nodup_tree ex_root /\ is_tree ex_root w6_t
+  /\ path ex_root [w6_ti2; w6_ti3] (ex_leaf 3 "L")
+  /\ existsb (same (ex_leaf 4 "L")) (ups [w6_ti2; w6_ti3]) = false
+  /\ is_in_tree w6_t (ex_leaf 4 "L") = true
+  /\ depth w6_t (ex_leaf 3 "L") (Some (ex_leaf 4 "L")) true = Some ValueError.
+Proof. exact w6_nonancestor. Qed.
+(* C06_foreign_keyerror *)
+Theorem C06_ex_foreign : is_tree ex_root w6_t /\ foreign ex_root (ex_leaf 9 "L")
+  /\ get_xpath w6_t (ex_leaf 9 "L") = KeyError /\ get_ancestors w6_t (ex_leaf 9 "L") = Some KeyError.
+Proof. exact w6_foreign_ok. Qed.
+(* C06_xpath_injective_partial, C06_xpath_follow, C06_xpath_injective: their premises (two paths to one object / with
+   one string) are, by their conclusions, only met by twice the same path; the contrapositive is what is used: the
+   different paths to the twins L3 and L6 lead to different objects and different strings *)
+Theorem C06_ex_injective : wf_node ex_ct ex_root = true /\ nodup_tree ex_root /\ clean_names ex_root /\ is_tree ex_root w6_t
+  /\ path ex_root [w6_ti2; w6_ti3] (ex_leaf 3 "L") /\ path ex_root [w6_ti6] (ex_leaf 6 "L")
+  /\ addr (ex_leaf 3 "L") = addr (ex_leaf 3 "L")
+  /\ get_xpath w6_t (ex_leaf 3 "L") = get_xpath w6_t (ex_leaf 3 "L")
+  /\ addr (ex_leaf 3 "L") <> addr (ex_leaf 6 "L")
+  /\ get_xpath w6_t (ex_leaf 3 "L") <> get_xpath w6_t (ex_leaf 6 "L")
+  /\ ex_leaf 3 "L" <> ex_leaf 6 "L".
+Proof. exact w6_injective. Qed.
+(* C06_xpath_render_injective: two different step lists (other objects, other parents, index None against 0), both
+   seg_ok, spelled alike *)
+Theorem C06_ex_render : Forall seg_ok w6_l1 /\ Forall seg_ok w6_l2 /\ xpath_of ex_root w6_l1 = xpath_of ex_root w6_l2
+  /\ w6_l1 <> w6_l2 /\ xpath_of ex_root w6_l1 = lit "/@root[0]P/@child[0]P/@items[0]L".
+Proof. exact w6_render. Qed.
